@@ -20,7 +20,10 @@ binding half: no repository hook.  harness/pipesdrv hands the pipes package an
                  that order; TLC validates the recorded traces and evaluates the
                  formulas on the LOGGED values at every observed quiescence.
               3. gated random schedules over the remaining binds (BindMany, BindReady,
-                 BindStart, BindErr, BindConnected, renamed targets, Multi, slow target)
+                 BindStart, BindErr, BindConnected, renamed targets, Multi, slow target;
+                 several binding calls of one kind between the same two machines: BindMany
+                 lists split over calls of equal length, one source state bound into two
+                 target states; several piped error states Err*, added with Exception)
                  and free-running bursts (no gate, random rhythm).
 A VIOLATION is reported only when a formula is false on values the real machines
 produced; an expired wait with gates still parked is exit 2.
@@ -57,8 +60,9 @@ SETS = {"A": "<-StatesA", "AB": "<-StatesAB", "": "<-NoStates"}
 
 
 def cfg(name, mode="pair", states="A", multi="", flat=False, local=True, slow=False,
-        maxsrc=3, maxext=0, multiops=False, binds=("Bind",), sample=None, vmaxsrc=None):
-    return dict(name=name, mode=mode, states=states, multi=multi, flat=flat, local=local,
+        maxsrc=3, maxext=0, multiops=False, binds=("Bind",), sample=None, vmaxsrc=None,
+        pipes="plain"):
+    return dict(name=name, mode=mode, states=states, multi=multi, flat=flat, local=local, pipes=pipes,
                 slow=slow, maxsrc=maxsrc, maxext=maxext, multiops=multiops, binds=list(binds),
                 sample=sample, vmaxsrc=vmaxsrc or maxsrc)
 
@@ -71,7 +75,15 @@ CONFIGS = {
         cfg("nonflat-local-A", maxsrc=4, binds=PAIR2),
         cfg("nonflat-local-A-named", maxsrc=3, binds=("BindReady", "BindStart")),
         cfg("nonflat-local-A-slow", slow=True, maxsrc=3, binds=("Bind", "BindMany")),
-        cfg("nonflat-local-AB", states="AB", multiops=True, maxsrc=3, binds=PAIR2, sample=250),
+        # "BindMany/2": the piped states split over two BindMany calls of equal length
+        cfg("nonflat-local-AB", states="AB", multiops=True, maxsrc=3, binds=PAIR2 + ("BindMany/2",),
+            sample=250),
+        # one source state bound into two target states by two calls of one kind
+        cfg("nonflat-local-A-fan", pipes="fan", maxsrc=3, binds=("Bind", "BindMany/2", "Manual/2"),
+            sample=120),
+        # two piped error states (target names Err*: added together with Exception)
+        cfg("nonflat-local-AB-err", states="AB", pipes="err", maxsrc=3, binds=("Bind", "BindMany"),
+            sample=150),
         cfg("nonflat-local-multiA", multi="A", maxsrc=3, binds=("Bind", "Manual")),
         cfg("nonflat-remote-A", local=False, maxsrc=3, binds=("Bind",)),
         cfg("flat-local-A", flat=True, maxsrc=4, binds=("Manual",)),
@@ -84,7 +96,15 @@ CONFIGS = {
     "thorough": [
         cfg("nonflat-local-A", maxsrc=5, binds=PAIR1, vmaxsrc=6),
         cfg("nonflat-local-A-slow", slow=True, maxsrc=4, binds=PAIR2),
-        cfg("nonflat-local-AB", states="AB", multiops=True, maxsrc=3, binds=PAIR2),
+        cfg("nonflat-local-AB", states="AB", multiops=True, maxsrc=3, binds=PAIR2 + ("BindMany/2",)),
+        cfg("nonflat-local-A-fan", pipes="fan", maxsrc=3, vmaxsrc=5, binds=("Bind", "BindMany/2", "Manual/2"),
+            sample=4000),
+        cfg("nonflat-local-AB-fan", states="AB", pipes="fan", maxsrc=2, binds=("Bind", "BindMany/2"),
+            sample=4000),
+        cfg("nonflat-local-AB-err", states="AB", pipes="err", multiops=True, maxsrc=3,
+            binds=("Bind", "BindMany", "BindMany/2"), sample=4000),
+        cfg("nonflat-local-AB-err-slow", states="AB", pipes="err", slow=True, maxsrc=3,
+            binds=("BindMany",), sample=4000),
         cfg("nonflat-local-AB-4", states="AB", multiops=False, maxsrc=4, binds=("Bind", "BindMany"),
             sample=6000),
         cfg("nonflat-local-AB-slow", states="AB", slow=True, maxsrc=3, binds=("BindMany",),
@@ -112,13 +132,14 @@ CONFIGS = {
 
 def verify_bound(c, tier):
     """Burst bound of the verification runs (all interleavings, hist-free view)."""
-    extra = 0 if tier == "quick" else (3 if c["states"] == "A" else 1)
+    extra = 0 if tier == "quick" else (3 if c["states"] == "A" and c["pipes"] == "plain" else 1)
     return max(c["vmaxsrc"], c["maxsrc"] + extra)
 
 
 def consts_of(c, flags, emit, maxsrc=None):
     return dict(flags, McMode=c["mode"], McStates=SETS[c["states"]], McMulti=SETS[c["multi"]],
                 McFlat=c["flat"], McLocal=c["local"], McSlow=c["slow"], McAddOnly=False,
+                McPipes=c["pipes"],
                 MaxSrc=maxsrc or c["maxsrc"], MaxExt=c["maxext"], MultiOps=c["multiops"],
                 SrcPriority=emit, Emit=emit)
 
@@ -171,10 +192,15 @@ def mc_verify(tier, rep):
 # cases for the Go driver
 
 def case(label, bind, states, tstates=None, flat=False, local=True, multi=(), gated=True,
-         slow=False, seed=0, script=()):
+         slow=False, seed=0, script=(), parts=()):
+    """bind "BindMany/2" / "Manual/2": the pipes are split over two binding calls
+    (parts = sizes of the groups; default: two halves)."""
+    if bind.endswith("/2"):
+        bind = bind[:-2]
+        parts = parts or [(len(states) + 1) // 2, len(states) // 2]
     return dict(label=label, bind=bind, flat=flat, local=local, states=list(states),
                 tstates=list(tstates or states), multi=list(multi), gated=gated, slow=slow,
-                seed=seed, script=list(script))
+                seed=seed, script=list(script), parts=list(parts))
 
 
 def src(op, states, args=False):
@@ -188,9 +214,16 @@ def rel(n, op, states):
 QUIET = dict(k="quiet")
 
 
-def names_for(bind, states):
+def names_for(bind, states, pipes="plain"):
     """(source state names, target state names) a bind kind is exercised with for
-    the model states A, B."""
+    the model states A, B (and the model's target names A2, B2, Exception)."""
+    if pipes == "err":
+        return ({s_: "Err" + s_ for s_ in states},
+                dict({s_: "Err" + s_ for s_ in states}, Exception="Exception"))
+    if pipes == "fan":
+        tn = {s_: "T" + s_ for s_ in states}
+        tn.update({s_ + "2": "T" + s_ + "2" for s_ in states})
+        return {s_: s_ for s_ in states}, tn
     if bind == "BindReady":
         return {"A": "Ready"}, {"A": "TReady"}
     if bind == "BindStart":
@@ -203,7 +236,7 @@ def names_for(bind, states):
 def sched_to_case(c, bind, sched, label):
     """A TLC-emitted behaviour -> a gated script for the Go driver."""
     states = list(c["states"])
-    sn, tn = names_for(bind, states)
+    sn, tn = names_for(bind, states, c["pipes"])
     script = []
     for h in sched["hist"]:
         if h["k"] == "src":
@@ -215,7 +248,9 @@ def sched_to_case(c, bind, sched, label):
         elif h["k"] == "ext":
             script.append(dict(k="ext"))
     script.append(QUIET)
-    cs = case(label, bind, [sn[x] for x in states], [tn[x] for x in states], flat=c["flat"],
+    pstates = states + states if c["pipes"] == "fan" else states          # source state of pipe i
+    ptargets = states + [x + "2" for x in states] if c["pipes"] == "fan" else states
+    cs = case(label, bind, [sn[x] for x in pstates], [tn[x] for x in ptargets], flat=c["flat"],
               local=c["local"], multi=[sn[x] for x in c["multi"]], gated=True, slow=c["slow"],
               script=script)
     cs["_expect"] = dict(src=sorted(sn[x] for x in sched["src"]),
@@ -303,7 +338,8 @@ def heldup_cases():
 def rand_cases(rng, n, gated):
     out = []
     kinds = ["Bind", "BindMany", "Manual", "ManualFlat", "ManualFlatRemote", "BindReady", "BindStart",
-             "BindErr", "BindConnected", "BindAny", "BindManyMulti", "BindRemote", "BindAnyRemote"]
+             "BindErr", "BindConnected", "BindAny", "BindManyMulti", "BindRemote", "BindAnyRemote",
+             "BindManySplit", "BindFan", "BindManyErrs"]
     conn = ["Disconnected", "Connecting", "Connected", "Disconnecting"]
     for i in range(n):
         kind = kinds[i % len(kinds)]
@@ -312,7 +348,27 @@ def rand_cases(rng, n, gated):
         slow = gated and rng.random() < 0.3 and kind not in ("BindConnected",)
         multi = []
         pre = []
-        if kind in ("Bind", "BindRemote"):
+        parts = []
+        if kind == "BindManySplit":
+            # several BindMany calls between the same two machines, lists of equal length
+            n, k = rng.choice([(1, 2), (2, 2), (1, 3), (2, 2)])
+            bind, states = "BindMany", ["A", "B", "C", "D"][:n * k]
+            rng.shuffle(states)
+            tstates = ["T" + x for x in states] if rng.random() < 0.5 else list(states)
+            parts = [n] * k
+        elif kind == "BindFan":
+            # one source state bound into two target states (two calls of one kind)
+            bind = rng.choice(["Bind", "BindMany", "Manual"])
+            base = ["A", "B"][:rng.randint(1, 2)]
+            states = base + base
+            tstates = ["T" + x for x in base] + ["T" + x + "2" for x in base]
+            parts = [len(base)] * 2
+        elif kind == "BindManyErrs":
+            # piped error states: target names Err*, added together with Exception
+            bind = rng.choice(["BindMany", "Bind"])
+            states = ["ErrA", "ErrB", "ErrC"][:rng.randint(2, 3)]
+            tstates = list(states)
+        elif kind in ("Bind", "BindRemote"):
             bind, states = "Bind", ["A", "B"][:rng.randint(1, 2)]
             tstates = ["T" + x for x in states]
         elif kind in ("BindMany", "BindManyMulti"):
@@ -350,8 +406,8 @@ def rand_cases(rng, n, gated):
                 script.append(src("add", [rng.choice(conn)]) if rng.random() < 0.75
                               else src("remove", [rng.choice(conn)]))
             else:
-                k = 1 if rng.random() < 0.7 else min(2, len(states))
-                script.append(src(rng.choice(["add", "remove"]), sorted(rng.sample(states, k)),
+                k = 1 if rng.random() < 0.7 else min(2, len(set(states)))
+                script.append(src(rng.choice(["add", "remove"]), sorted(rng.sample(sorted(set(states)), k)),
                                   args=rng.random() < 0.15))
             if gated:
                 for _ in range(rng.choice([0, 0, 1, 1, 2])):
@@ -366,7 +422,7 @@ def rand_cases(rng, n, gated):
         script.append(QUIET)
         out.append(case("%s-%s-%d" % ("rand" if gated else "free", kind, i), bind, states, tstates,
                         flat=flat, local=local, multi=multi, gated=gated, slow=slow,
-                        seed=rng.randrange(1 << 30), script=script))
+                        seed=rng.randrange(1 << 30), script=script, parts=parts))
     return out
 
 
@@ -627,7 +683,7 @@ def nontrivial_key(lines):
         return None
     srcs = tuple((x["op"], tuple(x["states"])) for x in lines if x["ev"] == "sret")
     return (init["bind"], init["flat"], init["local"], init["slow"], tuple(init["multi"]),
-            srcs, tuple(order))
+            tuple(init.get("parts", ())), len(init["tstates"]), srcs, tuple(order))
 
 
 # ---------------------------------------------------------------------------
@@ -730,7 +786,8 @@ def check(tier):
             violating_cases=len(by_case(gfiles + ffiles, gviol + fviol)),
             violation_classes=[dict(bind=k[0], flat=k[1], local=k[2], cause=k[3], formula=k[4])
                                for k in sorted(classes)],
-            rule="cases = (bind kind, flat, local/non-local proxy target, Multi, slow target, "
+            rule="cases = (bind kind, number of binding calls of that kind / fan-out / Err* targets, "
+             "flat, local/non-local proxy target, Multi, slow target, "
                  "source toggle burst, delivery order): every complete behaviour TLC enumerates "
                  "for the selected spec variant (bursts <= MaxSrc, all delivery orders), forced on "
                  "the real machines through the target proxy's gates, + gated random schedules and "
